@@ -48,8 +48,11 @@ def _cases(tier):
                     yield {"seam": "cli", "pos": pos, "keys": ks, "dkr": rl, "dkf": fl, "second": "none"}
 
 
+_VALS = [1, "v", 1.0, True]     # 1 == 1.0 == True in Python, three different JSON kinds
+
+
 def _obj(ks):
-    return {k: (1 if i % 2 == 0 else "v") for i, k in enumerate(ks)}
+    return {k: _VALS[i % 4] for i, k in enumerate(ks)}
 
 
 def _samples(case):
